@@ -27,6 +27,9 @@ fn main() {
         s.require("sender-drop-with-queued", 1000);
         s.require("ctx:tokio-multi-thread", 30);
         s.require("ctx:tokio-current-thread", 30);
+        s.require("ctx:tokio-multi-thread-root", 20);
+        s.require("ctx:same-thread-was-inside-a-different-runtime-before", 30);
+        s.require("ctx:multi-thread-root-then-current-thread-on-one-thread", 3);
         s.require("recv:stalled", 20);
             // artifacts of the libFuzzer target `chan_c08` (engine E6 over E2) are replayed through the same entry
             s.manual("fuzz-artifact", Vec::<Vec<u8>>::new(), |bytes, cx| {
